@@ -865,6 +865,13 @@ Q(id='C16.kalign_api.protocol', props=['C16', 'C01', 'C09'], cls='P', harness='c
   unwind=4, timeout=600, replayable=False, funcs=['kalign'],
   trusted=[TRUST_MSG, 'kalign_run, kalign_msa_to_arr, kalign_free_msa replaced at the call sites by step / argument contracts, kalign_arr_to_msa by a stub with the same contract (harness/c16_kalign_api.c); each has its own queries'],
   assumptions=['argument values, thread count, type, penalties (full float domain) and the failing step symbolic'])
+Q(id='C02.tree_merge_order', props=['C02', 'C10', 'C16'], cls='B', harness='c02_tree_order.c', entry='h_c02_tree_order',
+  shapes=lambda tier: [dict(name='tree%d' % k, defs=dict(KV_TREE=k)) for k in (0, 1, 2, 3)],
+  mode='dfcc', replace=['do_align'], loops_files=['aln_run.tree.loops'], unwind=8, timeout=600, replayable=False,
+  funcs=['create_msa_tree', 'recursive_aln'],
+  trusted=[TRUST_MSG, 'do_align replaced at the call site by a contract over ghost state (harness/c02_tree_order.c); alloc_aln_mem / free_aln_mem / sort_tasks: counting harness stubs',
+           'OpenMP pragmas are not seen by the verifier (serial semantics); their order is the static fact omp_tree_merge_order'],
+  assumptions=['bounded: the four guide-tree shapes over 3 and 4 sequences (concrete), thread count symbolic; the recursion itself is the real one'])
 Q(id='C04.kalign_read_input.protocol', props=['C04', 'C05'], cls='P', harness='c04_read_protocol.c', entry='h_c04_read_protocol',
   mode='dfcc', replace=['read_file_stdin', 'detect_alignment_format', 'read_fasta', 'read_msf', 'read_clu', 'detect_alphabet', 'detect_aligned', 'set_sip_nsip', 'free_in_buffer', 'merge_msa', 'kalign_free_msa'],
   unwind=4, timeout=600, replayable=False, funcs=['kalign_read_input', 'check_for_sequences'],
